@@ -18,7 +18,7 @@ META = {
     "value per share with the deposit / withdraw fee factors, a positive price impact is capped by the impact pool, a negative one "
     "reduces the mint, no more GM than held can be redeemed, and deposit -> withdraw never returns more value than was paid.",
     "bounds": ["v1: pool rows from a grid of 9 (token USDG below / near / at / above target, far above, empty, zero target weight, the first row of the repo's CSV), tokens weth(18) / usdc(6), amount in [1e-6, 1e5] tokens, held GLP in [0, 1e7]", "v2: pool rows from a grid of 5 (balanced, long-heavy, short-heavy, tiny impact pool, no virtual inventory), deposits in [0, 1e4] long / [0, 1e7] short tokens, impact pool in [0, 1e3] tokens, exponent factor 2"],
-    "outside": ["symbolic pool rows (probe: unknown at 365 s)", "v2 IEEE rounding (floats modelled as reals; per-path witness runs execute the float code)", "multi-bar sequences"],
+    "outside": ["symbolic pool rows (probe: unknown at 365 s)", "v2 IEEE rounding (floats modelled as reals; per-path witness runs execute the float code)", "multi-bar sequences other than: every v1 fee figure looked up on an earlier bar with other weights / supply, then the bar under test"],
     "assumptions": ["the v1 row is self-consistent: glp_price == aum / glp supply in matching units (true of the repo's data)", "Vault fee rule transcribed from gmx-contracts VaultUtils.getFeeBasisPoints"],
 }
 V1_SHADOWS = ("demeter.gmx.market", "demeter.gmx.helper", "demeter.broker._typing", "demeter.broker.broker", "demeter.broker.market", "demeter.utils.application")
